@@ -3,6 +3,7 @@
 package upload
 
 import (
+	"bytes"
 	"encoding/binary"
 	"fmt"
 	"os"
@@ -77,6 +78,12 @@ var upDamages = []upDamage{
 
 var c07faults *verifrt.Result
 
+// c01faults: what reaches the server during and after a run in which an fs
+// call failed contains nothing the configuration does not approve (C01).
+var c01faults *verifrt.Result
+
+const c01FaultCanary = "CANARY-c01faults"
+
 func TestVerifC05Upload(t *testing.T) {
 	const check = "C05.upload"
 	res := verifrt.NewResult(check)
@@ -92,6 +99,9 @@ func TestVerifC05Upload(t *testing.T) {
 		c07faults = verifrt.NewResult("C07.faults")
 		c07faults.SetFile(fmt.Sprintf("C07.faults.part%d.json", b))
 		defer c07faults.Write()
+		c01faults = verifrt.NewResult("C01.faults")
+		c01faults.SetFile(fmt.Sprintf("C01.faults.part%d.json", b))
+		defer c01faults.Write()
 		lo, hi := verifrt.CaseRange(check, b, per)
 		for i := lo; i < hi; i++ {
 			rnd := verifrt.NewRand(verifrt.Seed(), fmt.Sprintf("%s/%d", check, i))
@@ -114,6 +124,17 @@ func TestVerifC05Upload(t *testing.T) {
 	}
 	c07f.Require("fault-then-no-report", "retry-produced-report")
 	c07f.Write()
+	c01f := verifrt.NewResult("C01.faults")
+	c01f.Rule = "the C05.upload runs in mode on (two healthy files of one week holding an approved counter, an unapproved one and a private name carrying a canary token), one fs call failing with EACCES/ENOSPC/EIO/ENOENT/EMFILE, followed by a fault-free run: no request of either run carries the unapproved name or the canary (whatever a failed write or clean-up left behind in local/). distinct = distinct fault plans that were delivered"
+	parts, _ = filepath.Glob(filepath.Join(verifrt.OutDir(), "C01.faults.part*.json"))
+	for _, p := range parts {
+		if pr, err := verifrt.LoadResult(p); err == nil {
+			c01f.Merge(pr)
+		}
+		os.Remove(p)
+	}
+	c01f.Require("requests-after-fault-checked")
+	c01f.Write()
 }
 
 func c05UploadCase(r *verifrt.Result, base string, rnd *verifrt.Rand, i int) {
@@ -124,7 +145,7 @@ func c05UploadCase(r *verifrt.Result, base string, rnd *verifrt.Rand, i int) {
 	bld := verifref.Build{Program: "golang.org/x/tools/gopls", Version: "v1.2.3", GoVersion: "go1.22.1", GOOS: "linux", GOARCH: "amd64"}
 	var srcs []verifref.SourceFile
 	for k := 0; k < 2; k++ {
-		f := &ufile{Build: bld, Kind: "ok", End: end, Begin: end.Add(-3 * 24 * time.Hour), Counts: map[string]uint64{"editor/opens": uint64(2 + k), "flag:v": 7}}
+		f := &ufile{Build: bld, Kind: "ok", End: end, Begin: end.Add(-3 * 24 * time.Hour), Counts: map[string]uint64{"editor/opens": uint64(2 + k), "flag:v": 7, "private/" + c01FaultCanary: 3}}
 		f.setName(k)
 		td.put(f, rnd)
 		srcs = append(srcs, verifref.SourceFile{Build: f.Build, Counts: f.Counts})
@@ -302,6 +323,18 @@ func c05UploadCase(r *verifrt.Result, base string, rnd *verifrt.Rand, i int) {
 		}
 		if i < 40 && faultSeq > 0 {
 			c07faults.Sample(map[string]any{"case": i, "fault_at_call": faultSeq, "errno": errno.Error(), "layout": layout})
+		}
+	}
+	if delivered && modeOn && c01faults != nil {
+		run(nil) // (a later, fault-free run meets whatever the failed one left behind)
+		c01faults.Eval()
+		c01faults.Distinct(fmt.Sprintf("%d/%v/%s", faultSeq, errno, layout))
+		for _, q := range srv.requests() {
+			c01faults.Hit("requests-after-fault-checked")
+			if bytes.Contains(q.Body, []byte(c01FaultCanary)) || bytes.Contains(q.Body, []byte(`"flag:v"`)) {
+				c01faults.Violate("request-carries-unapproved-after-fault", fmt.Sprintf("fs call #%d failed with %v; a request of that or of the following fault-free run carries data the configuration does not approve: %.300s", faultSeq, errno, q.Body), rp)
+				break
+			}
 		}
 	}
 	if !delivered && layout == "normal" || layout == "upload-missing" && !delivered {
